@@ -521,6 +521,20 @@ V("alldiff-ranks-short", "break", ["C16"], P + "alldifferent_propagator.py", "  
 V("alldiff-neutral-temp-size", "neutral", ["C16"], P + "alldifferent_propagator.py", "    bounds_nb = 2 * n + 2\n", "    extra = 2\n    bounds_nb = n + n + extra\n", "size computed differently")
 V("gcc-neutral-bigger", "neutral", ["C16"], P + "gcc_propagator.py", "    bounds_nb = 2 * n + 2\n", "    bounds_nb = 2 * n + 4\n", "scratch arrays larger than needed")
 
+V("gcc-no-zero-capacity-precondition", "break", ["C04"], P + "gcc_propagator.py",
+  """        domains[i, MIN] = skip_non_null_elements_right(u, domains[i, MIN])
+        domains[i, MAX] = skip_non_null_elements_left(u, domains[i, MAX])
+""", "", "bounds are no longer moved off zero-capacity values before the Hall-interval filtering (gcc hangs)", "compute_domains_gcc")
+V("gcc-precondition-on-lower-bounds", "break", ["C04"], P + "gcc_propagator.py",
+  "        domains[i, MIN] = skip_non_null_elements_right(u, domains[i, MIN])", "        domains[i, MIN] = skip_non_null_elements_right(l, domains[i, MIN])",
+  "MIN moved past values whose LOWER bound is zero instead of those whose capacity is zero", "compute_domains_gcc")
+V("gcc-precondition-neutral-reorder", "neutral", ["C04", "C16"], P + "gcc_propagator.py",
+  """        domains[i, MIN] = skip_non_null_elements_right(u, domains[i, MIN])
+        domains[i, MAX] = skip_non_null_elements_left(u, domains[i, MAX])
+""", """        domains[i, MAX] = skip_non_null_elements_left(u, domains[i, MAX])
+        domains[i, MIN] = skip_non_null_elements_right(u, domains[i, MIN])
+""", "the two independent moves reordered")
+
 # --------------------------------------------------------------------------------------------- loop variants
 V("lexleq-loop-no-step", "break", ["C04"], P + "lexicographic_leq_propagator.py", None, None, "scan loop loses its step", "lexicographic",
   edits=[{"old": "        i += 1\n", "new": "        pass\n", "occurrence": 0}])
